@@ -39,7 +39,7 @@ const (
 	c41Produce   c41Op = "produce"     // handleProduce acks=-1 (append + flush)
 	c41Produce0  c41Op = "produce0"    // handleProduce acks=0 (append only, buffered)
 	c41FetchOld  c41Op = "fetch-old"   // handleFetch at offset 0 (flushed segment: cache / S3 / prefetch)
-	c41FetchTail c41Op = "fetch-tail"  // handleFetch at the current end (buffer / mid-flush window)
+	c41FetchTail c41Op = "fetch-tail"  // handleFetch at the first unflushed offset (two buffered batches + whatever is appended; buffer / mid-flush window)
 	c41Flush     c41Op = "flush"       // PartitionLog.Flush
 	c41CacheSet  c41Op = "cache-set"   // SegmentCache.SetSegment on the partition's first segment key
 	c41CacheGet  c41Op = "cache-get"   // SegmentCache.GetSegment + read of the returned bytes
@@ -55,7 +55,7 @@ type c41World struct {
 	seg0   []byte
 }
 
-func c41Setup(points bool) *c41World {
+func c41Setup(points bool, buffered bool) *c41World {
 	w := &c41World{bucket: fakes3.NewBucket()}
 	s3 := fakes3.New(w.bucket, "b1")
 	s3.NoPoints = !points
@@ -75,6 +75,26 @@ func c41Setup(points bool) *c41World {
 	}
 	segs, _ := w.bucket.Snapshot()
 	w.seg0 = segs["default/t/0/segment-00000000000000000000.kfs"]
+	// two acknowledged-but-unflushed batches of different sizes stay in the write buffer, so that tail
+	// fetches assemble a multi-batch record set from buffered batches and flushes have work to do. As on
+	// the wire (record sets are sub-slices of the request frame) the batch bytes have spare capacity.
+	// Sizes: the allocator's size classes leave the first (about 2 KiB) batch more spare capacity than the
+	// second batch is long, whichever layer copies it.
+	if buffered {
+		// read-after-ack mode (flushOnAck=false): fetches see acknowledged records that are still buffered
+		w.h.flushOnAck = false
+	}
+	for i, n := range []int{2000, 8} {
+		if !buffered {
+			break
+		}
+		b := enum.SimpleBatch(fmt.Sprintf("buf%d", i), 1, n)
+		withCap := make([]byte, len(b), len(b)+512)
+		copy(withCap, b)
+		if _, err := vProduce(w.h, 0, map[string]map[int32][]byte{"t": {0: withCap}}); err != nil {
+			panic(fmt.Sprintf("c41 setup buffered produce: %v", err))
+		}
+	}
 	return w
 }
 
@@ -194,9 +214,20 @@ func c41NewRaces() (found []c41Race, ignored int) {
 	return found, ignored
 }
 
-func c41Body(ops []c41Op) func(s *sched.Sched) {
+// c41Buffered marks a scenario that starts with two unflushed batches in the write buffer.
+const c41Buffered c41Op = "world:buffered"
+
+func c41Split(ops []c41Op) (bool, []c41Op) {
+	if len(ops) > 0 && ops[0] == c41Buffered {
+		return true, ops[1:]
+	}
+	return false, ops
+}
+
+func c41Body(all []c41Op) func(s *sched.Sched) {
 	return func(s *sched.Sched) {
-		w := c41Setup(true)
+		buffered, ops := c41Split(all)
+		w := c41Setup(true, buffered)
 		defer w.h.coordinator.Stop()
 		for i, op := range ops {
 			i, op := i, op
@@ -206,7 +237,7 @@ func c41Body(ops []c41Op) func(s *sched.Sched) {
 		if s.Deadlock {
 			s.Fail("deadlock", "blocked: %s", s.Blocked())
 		}
-		s.Note("%v", ops)
+		s.Note("%v", all)
 	}
 }
 
@@ -237,6 +268,14 @@ func TestVerifC41(t *testing.T) {
 			scen = append(scen, []c41Op{c41Produce, a, b})
 		}
 	}
+	// the same world with two unflushed batches already in the write buffer: operations that touch the buffer
+	tailOps := []c41Op{c41FetchTail, c41Flush, c41Produce0, c41Produce}
+	for i, a := range tailOps {
+		for _, b := range tailOps[i:] {
+			scen = append(scen, []c41Op{c41Buffered, a, b})
+		}
+	}
+	scen = append(scen, []c41Op{c41Buffered, c41Produce0, c41FetchTail, c41FetchTail}, []c41Op{c41Buffered, c41Flush, c41FetchTail, c41FetchTail})
 	rep.SetInfo("scenarios", len(scen))
 	var rp struct {
 		Ops     []c41Op
@@ -264,7 +303,7 @@ func TestVerifC41(t *testing.T) {
 		ops := ops
 		c41NewRaces() // drain anything reported by set-up of a previous scenario
 		p := P
-		if len(ops) > 2 {
+		if _, real := c41Split(ops); len(real) > 2 {
 			p = P - 1 // triples: one preemption less (reported in bounds)
 		}
 		st := sched.Explore(t, sched.Config{MaxPreempt: p, Deadline: deadline}, c41Body(ops), func(x *sched.Exec) {
@@ -300,9 +339,10 @@ func TestVerifC41(t *testing.T) {
 			continue
 		}
 		for it := 0; it < iters; it++ {
-			w := c41Setup(false)
+			buffered, real := c41Split(ops)
+			w := c41Setup(false, buffered)
 			var wg sync.WaitGroup
-			for i, op := range ops {
+			for i, op := range real {
 				wg.Add(1)
 				go func(i int, op c41Op) {
 					defer wg.Done()
